@@ -86,6 +86,9 @@ structure Facts where
   /-- `case BEGIN:` of `parseTaxa` / `parseData` is an error (blocks do not nest); without it a `BEGIN` inside a block is
   skipped as an unsupported command and the block stays open -/
   rejectsNestedBegin : Bool := false
+  /-- `case ENDOFCOMMAND:` of `parseTaxa` / `parseData` does nothing (an empty command `;;`); without it the `;` starts
+  an "unsupported command" that swallows the next command - e.g. `DIMENSIONS` - up to its `;` -/
+  emptyCommandIsNoOp : Bool := false
 
 /-- `consumeComment` after a `[`: scan up to `]`.  `err` = an EOF was met on the way (the Go code
 records "unmatched bracket" and, unless repaired, keeps looping). -/
@@ -203,6 +206,11 @@ def parseTaxa (f : Facts) : Nat → Seq → Int → List Name → R (Int × List
       else do
         let r' ← skipCommand (r.length + 3) r
         parseTaxa f fuel r' ntax labels
+    | .endofcommand =>
+      if f.emptyCommandIsNoOp then parseTaxa f fuel r ntax labels
+      else do
+        let r' ← skipCommand (r.length + 3) r
+        parseTaxa f fuel r' ntax labels
     | _ => do
       let r' ← skipCommand (r.length + 3) r
       parseTaxa f fuel r' ntax labels
@@ -308,6 +316,11 @@ def parseData (f : Facts) : Nat → Seq → Data → R (Data × Seq)
       parseData f fuel r' d
     | .begin =>
       if f.rejectsNestedBegin then .error .error
+      else do
+        let r' ← skipCommand (r.length + 3) r
+        parseData f fuel r' d
+    | .endofcommand =>
+      if f.emptyCommandIsNoOp then parseData f fuel r d
       else do
         let r' ← skipCommand (r.length + 3) r
         parseData f fuel r' d
